@@ -224,6 +224,8 @@ def fit_failures_handled(repo, rep, rule):
 
 
 def run(repo, rep, tier):
+    from .round7b import hygiene
+    hygiene(repo, rep, "C20", ('wavespectra.',), falsy=True)
     rep.rule("R-C20-20", "every curve_fit call of the fitting kernels is guarded against ValueError, RuntimeError and OptimizeWarning (a failed fit gives NaN, not an exception)")
     fit_failures_handled(repo, rep, "R-C20-20")
     rep.rule("R-C20-19", "no function-scope static object in specpart.c: per-call buffers are sized by the call that uses them")
